@@ -3,6 +3,7 @@ package simrt
 import (
 	"fmt"
 	"sort"
+	"unsafe"
 )
 
 // ---- Yield ---------------------------------------------------------------
@@ -312,4 +313,47 @@ func CurrentTask() *Task {
 		return nil
 	}
 	return cur.running
+}
+
+// ---- gates: closure-free blocking, safe under the race detector ----------------------
+
+// Gate is a one-shot latch a task can wait on. It is opened by whichever task
+// makes the waiter runnable. All accesses go through //go:norace code, so the
+// race detector sees neither the simulator's reads (on the scheduler goroutine)
+// nor an artificial happens-before edge.
+type Gate struct{ open bool }
+
+//go:norace
+func (g *Gate) Open() { g.open = true }
+
+//go:norace
+func (g *Gate) IsOpen() bool { return g.open }
+
+//go:norace
+func gateH(s *Sim, t *Task, r *Req) Status {
+	g := (*Gate)(r.P)
+	if !g.open {
+		if r.I1 == 0 {
+			r.I1 = 1
+			s.EvS(t, "wait", r.S0)
+		}
+		t.Ready = gateReady
+		t.BlockedOn = r.S0
+		return Block
+	}
+	s.EvS(t, "proceed", r.S0)
+	return Done
+}
+
+//go:norace
+func gateReady(s *Sim, t *Task) bool { return (*Gate)(t.req.P).open }
+
+// WaitGate parks the calling task until g is open.
+//
+//go:norace
+func WaitGate(desc string, g *Gate) {
+	var r Req
+	r.P = unsafe.Pointer(g)
+	r.S0 = desc
+	Call(gateH, &r)
 }
